@@ -1274,10 +1274,13 @@ class _BetaReduce(ast.NodeTransformer):
         if isinstance(node.func, ast.Lambda) and not node.keywords:
             lam = node.func
             ps = [a.arg for a in lam.args.args]
-            if not lam.args.vararg and not lam.args.kwarg and not lam.args.kwonlyargs and not lam.args.defaults and len(ps) == len(node.args) \
-                    and all(_atomic(a) for a in node.args):
+            nd = len(lam.args.defaults)
+            if not lam.args.vararg and not lam.args.kwarg and not lam.args.kwonlyargs and len(ps) - nd <= len(node.args) <= len(ps) \
+                    and all(_atomic(a) for a in node.args) and all(_atomic(d) for d in lam.args.defaults):
                 m = dict(zip(ps, node.args))
-                return ast.copy_location(_Subst(m, {}).visit(copy.deepcopy(lam.body)), node)
+                for p_, d_ in zip(ps[len(ps) - nd:], lam.args.defaults):
+                    m.setdefault(p_, d_)                  # a parameter the call leaves out takes its default (a constant)
+                return ast.copy_location(_BetaReduce().visit(_Subst(m, {}).visit(copy.deepcopy(lam.body))), node)
         return node
 
 
